@@ -165,12 +165,13 @@ RefDefs == [A |-> Ty("integer") @@ [minimum |-> 1], B |-> Ty("object") @@ [props
             N |-> Ty("object") @@ [props |-> [k |-> <<ka, kb>>, v |-> <<Ty("integer"), S0 @@ [ref |-> "N"]>>], required |-> <<ka>>]]
 RefSchemas == << S0 @@ [ref |-> "A"], S0 @@ [ref |-> "B"], S0 @@ [ref |-> "N"], Ty("array") @@ [items |-> S0 @@ [ref |-> "A"]],
                  Ty("object") @@ [props |-> [k |-> <<kb>>, v |-> <<S0 @@ [ref |-> "B"]>>], required |-> <<kb>>] >>
-Link(next) == Ty("object") @@ [props |-> [k |-> <<ka>>, v |-> <<S0 @@ [ref |-> next]>>], required |-> <<ka>>]
-DeepLeaf == Ty("object") @@ [props |-> [k |-> <<ka, kb, kc>>, v |-> <<RO(Ty("integer")), Ty("string") @@ [minLength |-> 1], Nullable(Ty("integer") @@ [minimum |-> 0])>>],
-                             required |-> <<kb, kc>>]
+Link(next) == Ty("object") @@ [props |-> [k |-> <<ka, kb>>, v |-> <<RO(Ty("integer")), S0 @@ [ref |-> next]>>], required |-> <<kb>>, addProps |-> [sk |-> "false"]]
+DeepLeaf == Ty("object") @@ [props |-> [k |-> <<ka, kb, kc>>, v |-> <<RO(Ty("integer")), Ty("string") @@ [enum |-> <<Sv(<<120>>)>>], Nullable(Ty("integer") @@ [minimum |-> 0])>>],
+                             required |-> <<kb, kc>>, addProps |-> [sk |-> "false"]]
 DeepDefs == [R1 |-> Link("R2"), R2 |-> Link("R3"), R3 |-> Link("R4"), R4 |-> Link("R5"), R5 |-> Link("R6"), R6 |-> Link("R7"), R7 |-> Link("R8"),
              R8 |-> Link("R9"), R9 |-> Link("R10"), R10 |-> Link("R11"), R11 |-> Link("R12"), R12 |-> DeepLeaf,
-             T |-> Ty("object") @@ [props |-> [k |-> <<ka, kb>>, v |-> <<RO(Ty("integer")), Ty("array") @@ [items |-> S0 @@ [ref |-> "T"]]>>], required |-> <<kb>>]]
+             T |-> Ty("object") @@ [props |-> [k |-> <<ka, kb>>, v |-> <<RO(Ty("integer")), Ty("array") @@ [items |-> S0 @@ [ref |-> "T"], maxItems |-> 1]>>], required |-> <<kb>>,
+                                    addProps |-> [sk |-> "false"]]]
 NoRefDefs == [none |-> S0]
 
 (* ------------------------------------------------------------------------- *)
